@@ -28,11 +28,12 @@ fn unhex(s: &str) -> Vec<u8> {
         .collect()
 }
 
+/// chunks in hex separated by '|'; an empty chunk is "_", no chunks at all is "-"
 fn chunks_of(s: &str) -> Vec<Vec<u8>> {
-    if s.is_empty() {
+    if s.is_empty() || s == "-" {
         return vec![];
     }
-    s.split('|').map(unhex).collect()
+    s.split('|').map(|h| if h == "_" { vec![] } else { unhex(h) }).collect()
 }
 
 /// what the decoder hands to its inner sink, call by call
@@ -264,27 +265,69 @@ fn model_decode_to_sink(
 }
 
 /// the caller protocol of the encoding_rs documentation: keep calling with the
-/// remaining input until InputEmpty (what Decoder::decode_to_utf8 itself does)
-fn reference_oneshot(enc: &'static Encoding, all: &[u8]) -> (Vec<u8>, usize) {
-    let mut decoder = enc.new_decoder();
-    let mut text: Vec<u8> = vec![];
-    let mut n = 0;
-    let mut input = all;
+/// remaining input until InputEmpty (what Decoder::decode_to_utf8 itself does).
+/// Returns the text (U+FFFD per Malformed), the number of Malformed results and
+/// whether every OutputFull left input unread.
+fn reference_drive(
+    decoder: &mut encoding_rs::Decoder,
+    mut input: &[u8],
+    last: bool,
+    text: &mut Vec<u8>,
+    n: &mut usize,
+    full_ok: &mut bool,
+) {
     loop {
         let mut out = vec![0u8; 4096];
-        let (result, read, written) = decoder.decode_to_utf8_without_replacement(input, &mut out, true);
+        let (result, read, written) = decoder.decode_to_utf8_without_replacement(input, &mut out, last);
         text.extend_from_slice(&out[..written]);
-        input = &input[read..];
         match result {
-            DecoderResult::InputEmpty => break,
-            DecoderResult::OutputFull => {},
+            DecoderResult::InputEmpty => {
+                if read != input.len() {
+                    *full_ok = false;
+                }
+                break;
+            },
+            DecoderResult::OutputFull => {
+                if read >= input.len() {
+                    *full_ok = false;
+                }
+            },
             DecoderResult::Malformed(_, _) => {
-                n += 1;
+                *n += 1;
                 text.extend_from_slice("\u{FFFD}".as_bytes());
             },
         }
+        input = &input[read..];
     }
-    (text, n)
+}
+
+/// the decoder configuration LossyDecoder::new_encoding_rs uses: BOM sniffing
+/// (Encoding::new_decoder) for everything except UTF-8, which it routes to
+/// Utf8LossyDecoder (no BOM handling at all)
+fn matching_decoder(enc: &'static Encoding) -> encoding_rs::Decoder {
+    if enc == encoding_rs::UTF_8 {
+        enc.new_decoder_without_bom_handling()
+    } else {
+        enc.new_decoder()
+    }
+}
+
+fn reference_oneshot(enc: &'static Encoding, all: &[u8]) -> (Vec<u8>, usize, bool) {
+    let mut decoder = matching_decoder(enc);
+    let (mut text, mut n, mut ok) = (vec![], 0, true);
+    reference_drive(&mut decoder, all, true, &mut text, &mut n, &mut ok);
+    (text, n, ok)
+}
+
+/// the same protocol chunk by chunk (last = false), then end of stream
+fn reference_chunked(enc: &'static Encoding, chunks: &[Vec<u8>]) -> (Vec<u8>, usize, bool) {
+    let mut decoder = matching_decoder(enc);
+    let (mut text, mut n, mut ok) = (vec![], 0, true);
+    for c in chunks {
+        reference_drive(&mut decoder, c, false, &mut text, &mut n, &mut ok);
+    }
+    reference_drive(&mut decoder, &[], true, &mut text, &mut n, &mut ok);
+    (text, n, ok)
 }
 
 fn case_l(arg: &str) -> String {
@@ -309,13 +352,19 @@ fn case_l(arg: &str) -> String {
         Ok(e) => e.join(" "),
         Err(_) => "!".to_string(),
     };
-    // one-shot decodes of the concatenation: Encoding::decode (BOM sniffing, as
-    // new_decoder() does), Encoding::decode_without_bom_handling, and the
-    // documented caller loop (also counts the malformed sequences)
-    let (sniffed, _, _) = enc.decode(&all);
+    // one-shot decodes of the concatenation by the matching configuration:
+    // Encoding::decode (BOM sniffing, as new_decoder() does) - for UTF-8
+    // decode_without_bom_handling - and the documented caller loop (also counts
+    // the malformed sequences); bom! marks inputs on which BOM handling matters
     let (plain, _) = enc.decode_without_bom_handling(&all);
-    let (reference, nmal) = reference_oneshot(enc, &all);
+    let sniffed = if enc == encoding_rs::UTF_8 { plain.clone() } else { enc.decode(&all).0 };
+    let bomflag = if plain == enc.decode(&all).0 { "bom=" } else { "bom!" };
+    let (reference, nmal, full1) = reference_oneshot(enc, &all);
     let refflag = if reference == sniffed.as_bytes() { "ref=" } else { "ref!" };
+    // contract clauses on the real decoder: streaming = one-shot, OutputFull leaves input unread
+    let (chunked, nmal2, full2) = reference_chunked(enc, &chunks);
+    let strflag = if chunked == reference && nmal2 == nmal { "str=" } else { "str!" };
+    let fullflag = if full1 && full2 { "full=" } else { "full!" };
     // the loop model on the real decoder (UTF-8 goes through Utf8LossyDecoder, no loop)
     let model = if enc == encoding_rs::UTF_8 {
         "-".to_string()
@@ -332,12 +381,14 @@ fn case_l(arg: &str) -> String {
         mevs.join(" ")
     };
     format!(
-        "{} ; {} {} {} {} ; {}",
+        "{} ; {} {} {} {} {} {} ; {}",
         evs,
         hex(sniffed.as_bytes()),
         nmal,
-        if plain == sniffed { "bom=" } else { "bom!" },
+        bomflag,
         refflag,
+        strflag,
+        fullflag,
         model
     )
 }
